@@ -8,9 +8,11 @@
 
 use std::cell::RefCell;
 
+pub use super::agc::Agc;
 pub use super::assembler::Assembler;
 pub use super::codesquelch::{CodeAndPowerSquelch, SquelchOut, SquelchState};
 pub use super::combiner::verif::{bit_vote_correct, bit_vote_detect, estimate_message};
+pub use super::dcblock::DCBlocker;
 pub use super::framing::verif::{message_prefix_errors, prefix_search_len};
 pub use super::framing::Framer;
 
